@@ -545,7 +545,7 @@ pub fn gen_tree(rng: &mut Rng, docs: &mut Docs) -> Tree {
     // Files that *other* tools give a meaning to - ignore lists, editor and formatter settings.
     // To typstyle they are ineligible files like any other: they must stay untouched, and neither
     // the set of files that is formatted nor the text that is produced may depend on them.
-    if rng.chance(0.1) {
+    if rng.chance(0.15) {
         let typ_files: Vec<String> = tree.iter().filter(|(k, n)| matches!(n, Node::File(_)) && k.ends_with(".typ")).map(|(k, _)| k.clone()).collect();
         for _ in 0..rng.range(1, 2) {
             let dirs = dirs_of(&tree);
@@ -565,7 +565,7 @@ pub fn gen_tree(rng: &mut Rng, docs: &mut Docs) -> Tree {
                 }
                 (name, lines.join("\n") + "\n")
             } else {
-                let name = *rng.pick(&["typstyle.toml", ".typstyle.toml", ".typstylerc", ".editorconfig", "typst.toml", ".typstyle.json"]);
+                let name = *rng.pick(&["typstyle.toml", ".typstyle.toml", ".typstylerc", ".editorconfig", ".editorconfig", ".editorconfig", "typst.toml", ".typstyle.json"]);
                 let text = match name {
                     ".editorconfig" => "root = true\n[*]\nindent_style = tab\nindent_size = 8\nmax_line_length = 30\nend_of_line = crlf\ninsert_final_newline = false\n[*.typ]\nindent_size = 7\nmax_line_length = 25\n".to_string(),
                     ".typstyle.json" => "{\"column\": 33, \"tab_width\": 7, \"tab-width\": 7, \"reorder_import_items\": true, \"exclude\": [\"*.typ\"]}\n".to_string(),
@@ -830,14 +830,14 @@ fn gen_env(rng: &mut Rng) -> Vec<(String, String)> {
     }
     if rng.chance(0.3) {
         let names = [
-            "COLUMNS", "LINES", "TERM", "NO_COLOR", "CLICOLOR_FORCE", "LANG", "LC_ALL", "TYPSTYLE_COLUMN", "TYPSTYLE_TAB_WIDTH",
+            "COLUMNS", "LINES", "TERM", "NO_COLOR", "CLICOLOR_FORCE", "LANG", "LC_ALL", "LC_CTYPE", "LANG", "TYPSTYLE_COLUMN", "TYPSTYLE_TAB_WIDTH",
             "TYPSTYLE_COLUMNS", "TYPSTYLE_CHECK", "TYPSTYLE_INPLACE", "TYPSTYLE_LOG", "RUST_LOG", "TAB_WIDTH", "COLUMN", "CI", "EDITOR", "PAGER",
         ];
         for _ in 0..rng.range(1, 4) {
             let n = *rng.pick(&names);
             let val = match n {
                 "TERM" => "dumb".to_string(),
-                "LANG" | "LC_ALL" => rng.pick(&["C", "tr_TR.UTF-8", "de_DE.ISO-8859-1"]).to_string(),
+                "LANG" | "LC_ALL" | "LC_CTYPE" => rng.pick(&["C", "tr_TR.UTF-8", "de_DE.ISO-8859-1", "zh_CN.UTF-8", "ja_JP.UTF-8", "ko_KR.UTF-8", "zh_TW.UTF-8", "ja_JP.eucJP"]).to_string(),
                 // (HOME and TMPDIR are never pointed at something unusable: a tool that keeps state or
                 // temporary files there may legitimately fail in such an environment)
                 "EDITOR" | "PAGER" => "cat".to_string(),
